@@ -11,7 +11,7 @@ LEVEL_RULE = ("pairs (event, event with exactly one change) over all change kind
               "of children, a leaf's duration by >= 1 tick, a tag, an additional parameter on a leaf (changed / added / removed), "
               "the tempo of any node: bpm, or only later points of a trajectory = finding F1), identical pairs, copies, and non-events "
               "(None, numbers, plain lists, strings, objects); trees depth <= 4 with tags, tempi (direct and trajectories) and extra "
-              "leaf attributes (integers, and None / string / tuple / float values). Observed: a==b, b==a, a!=b, b!=a, reflexivity, copy()==source, destructive_copy()==source. "
+              "leaf attributes (integers, and None / string / tuple / float values), a leaf against a container holding exactly that leaf, the plain list of an event's own children as non-event; after the comparisons a copy gets a NEW parameter / an edited first tempo point and must compare unequal. Observed: a==b, b==a, a!=b, b!=a, reflexivity, copy()==source, destructive_copy()==source. "
               "non-trivial = the change is located at depth >= 2")
 ASSUMPTIONS = ["attribute values are modelled as integers (each non-numeric value used by the generator stands for one distinct negative integer), attribute names as identifiers; tempo equality as the code defines it (bpm at time 0)",
                "the model is tied to /repo by this run's differential correspondence (sampled)"]
@@ -107,7 +107,15 @@ def gen(seed, index):
     if r < 0.12:
         return ["eq", a, copy.deepcopy(a), "same", 0]
     if r < 0.22:
-        return ["eq", a, ["N", rng.randint(0, 6)], "non-event", 0]
+        # a non-event; code 100 = the plain list of the event's own children (list.__eq__ would say True to it)
+        return ["eq", a, ["N", rng.choice([0, 1, 2, 3, 4, 5, 6, 100, 100])], "non-event", 0]
+    if r < 0.30:
+        # a leaf against a container that holds exactly that leaf (same tag and tempo, same total duration), both ways
+        leaf = ["L", rng.randint(0, 5) * U, rng.choice([0, 1]), [rng.choice([60, 90])], []]
+        cont = [rng.choice("SP"), leaf[2], list(leaf[3]), copy.deepcopy(leaf)] if rng.random() < 0.7 else [rng.choice("SP"), leaf[2], list(leaf[3])]
+        pair = [leaf, cont]
+        rng.shuffle(pair)
+        return ["eq", pair[0], pair[1], "leaf-vs-container", 1]
     m = mutate(rng, a)
     if m is None:
         return ["eq", a, copy.deepcopy(a), "same", 0]
